@@ -47,13 +47,47 @@ P = {
    text="the simulator's goroutine table is ground truth: after main returned from Wait, joined its clients and read the notifier, the run continues under the fair policy to quiescence; normal, cancelled and serially reused containers (2-4 in one run)",
    oracle="no goroutine created at a library site is alive (parked or spinning) at quiescence",
    nontrivial=">= 1 bar and main returned"),
+
+ "C06": dict(level="exploration", sec="6/C06",
+   text="the harness records every priority assignment (creation index or explicit priority, SetPriority, UpdateBarPriority lazy/immediate) with invoke/return positions; per frame the rows must admit a non-decreasing choice from each bar's set of legally possible priorities at the start of that render cycle; the single frame after a lazy change is skipped; popped bars must sit above every bar that stays",
+   oracle="rows of every specified frame are ordered by priority (ties free); a lazy change is honoured from the frame after next; popped bars are above all running bars",
+   nontrivial=">= 2 bars and >= 2 frames"),
+ "C12": dict(level="exploration", sec="6/C12",
+   text="probe decorators record (text, W, C, returned string, returned width) of every Format call; per render cycle, side and ordinal among the synchronised decorators all returned widths must be equal to the maximum need over the bars drawn in that frame; uneven layouts, texts varying per frame, wrappers, bars joining/leaving, n>q",
+   oracle="per frame/side/column: common width == max(W > textwidth ? W : textwidth + extraspace); returned string has that display width and is in the bar's row; members are exactly the drawn bars; one Format per decorator per cycle",
+   nontrivial=">= 2 bars with synchronised decorators and >= 1 frame"),
+ "C14": dict(level="fault_enumeration", sec="6/C14",
+   text="for every base run the cancellation (context cancel or Shutdown) is injected by a canceller goroutine at every scheduling step of the base execution (all steps up to 400/1200, a seeded sample beyond), with the identical schedule prefix; auto, manual and non-refreshing containers, listeners under 0-3 wrapper layers, notifier, Add in flight",
+   oracle="Wait returns; every bar !IsRunning, Completed xor Aborted, Bar.Wait returns; every shutdown listener notified exactly once before Wait returned; exactly one notifier value without duplicates listing the bars still in the container; no panic; no output after Wait",
+   nontrivial="the cancellation was injected before Wait returned and >= 1 bar exists"),
+ "C15": dict(level="fault_enumeration", sec="6/C15",
+   text="the fault-free base run counts the calls per fault site (k-th Fill of bar i, k-th extender call, k-th output Write as error and as short write, k-th terminal-size query); every (site, k) up to 12/24 is then executed, half of them under a second schedule, with synchronised decorators on the other bars",
+   oracle="Wait returns (no deadlock/hang), no panic, the debug output gets exactly one line with the error's text, no output Write after the failing cycle, all bars stopped, no client call stuck, no library goroutine left",
+   nontrivial="the planned fault actually fired and >= 1 bar exists"),
+ "C17": dict(level="exploration", sec="6/C17",
+   text="generated histories over {create predecessor, predecessor finishes, predecessor flushed, create successor(s), successor finishes}: single successor, fan-out (2-3 successors of one predecessor), chains, late successors, with bystander bars, remove-on-complete and pop mode",
+   oracle="successor never in a frame with its predecessor; present in the frame after the predecessor's last frame, between the same neighbours (priority ties free); displayed at least once; Wait and Bar.Wait return",
+   nontrivial="at least one bar was created with BarQueueAfter and >= 2 frames"),
+ "C18": dict(level="exploration", sec="6/C18",
+   text="pop-completed containers with 1-8 bars finishing in any order or cycle, extender rows, user text, no-pop bars, queued successors, terminal and plain outputs; the emulator equation of C04 with popped row groups as persisted lines, plus per-bar pop rules",
+   oracle="screen == persisted ++ live rows after every frame (popped groups persist once, unchanged, in pop order, above all later output); a bar is popped only when shown finished and above every bar drawn again later; pop order follows finishing order; no-pop bars stay; at most 3 finished frames",
+   nontrivial="pop mode, >= 1 bar, >= 3 frames"),
+ "C19": dict(level="fault_enumeration", sec="6/C19",
+   text="seeded byte streams copied through ProxyReader/ProxyWriter by explicit loops (seeded buffer sizes incl. 0) and io.Copy, over the eight stub shapes {Reader,ReadCloser}x{+-WriterTo}, {Writer,WriteCloser}x{+-ReaderFrom} with seeded chunking (0, short, full), simulated latency and a failure placed at every call of the fault-free run; totals unknown/equal/larger/smaller; bare and wrapped moving-average recorders",
+   oracle="call by call (n, err) and data equal the stub's; Close forwarded once with its error; fast path offered iff the stub has it and used by io.Copy; Current() after each call equals the reference bar fed with the same n; recorders get one sample per call with its n and its simulated duration (+0..16ns)",
+   nontrivial=">= 4 stream calls recorded"),
+ "C20": dict(level="exploration", sec="6/C20",
+   text="PARTIAL: decides the clock/history half. Elapsed, AverageSpeed, AverageETA run on the simulated clock (sleeps up to 50 simulated hours) and their marked texts are read back from the frames; moving-average speed/ETA get a recording MovingAverage and generated sample histories (n <= 0, zero and huge durations) through EwmaIncr*/EwmaSetCurrent, bare and under 1-3 wrapper layers; size/counter/percentage texts found in frames are parsed back (sampling only)",
+   oracle="elapsed text == style(simulated elapsed); frozen after completion/abort; average speed frozen after completion and == current/elapsed within printed precision; ETA == (total-current) x round(elapsed/current); values added to the moving average == reference fold (carry when n <= 0); no NaN/Inf; sizes/percentages read back within half a unit of the last digit with the largest fitting unit",
+   nontrivial=">= 2 frames and >= 1 bar",
+   note="; the universal claim over all int64 values, verbs and precisions is an input-space claim that simulation samples but does not decide"),
 }
 
 NA = [
  ("C07", "pure function of (width, style, values): no schedule, clock, fault or interleaving for a simulator to control"),
  ("C08", "pure integer/float arithmetic of (total, current, width): no schedule, clock, fault or interleaving for a simulator to control"),
 ]
-PENDING = ["C06", "C12", "C14", "C15", "C17", "C18", "C19", "C20"]
+PENDING = []
 
 def main():
     checks = []
@@ -91,7 +125,7 @@ def main():
         ],
         "checks": checks,
         "not_applicable": na,
-        "notes": "fix: commits in /repo (see /verif/known_findings.json): F1 detached heap push, F3 completed() ignoring aborted, F5 rows == terminal height, F6 data race in completed(). See DESIGN.md.",
+        "notes": "fix: commits in /repo (see /verif/known_findings.json): F1 detached heap push, F2 fill error strands sync peers, F3 completed() ignoring aborted, F4a two successors of one predecessor, F5 rows == terminal height, F6 data race in completed(), F9 Wait returning before late bars' listeners; open finding F4b (late successor). See DESIGN.md.",
     }
     json.dump(m, open("/verif/MANIFEST.json", "w"), indent=1)
     json.dump(rules, open("/verif/prop_rules.json", "w"), indent=1)
